@@ -24,12 +24,13 @@ type node struct {
 	parent   *node
 	children map[string]*node
 	removed  bool
+	qtype    uint8 // further qid type bits (append-only, exclusive, temporary, mounted), as the perm of its create said
 }
 
 func (n *node) qid() go9p.Qid {
-	q := go9p.Qid{Path: n.path, Version: 0}
+	q := go9p.Qid{Path: n.path, Version: 0, Type: n.qtype}
 	if n.dir {
-		q.Type = go9p.QTDIR
+		q.Type |= go9p.QTDIR
 	}
 	return q
 }
@@ -389,6 +390,8 @@ func (fs *FS) Create(req *go9p.SrvReq) {
 		return
 	}
 	n := fs.add(x.node, req.Tc.Name, req.Tc.Perm&go9p.DMDIR != 0)
+	// the qid type is the top byte of the mode (the authentication bit is the framework's business)
+	n.qtype = uint8(req.Tc.Perm>>24) & (go9p.QTAPPEND | go9p.QTEXCL | go9p.QTMOUNT | go9p.QTTMP)
 	x.node = n
 	q := n.qid()
 	fs.resp(req, fmt.Sprintf("Rcreate %v", q))
